@@ -40,6 +40,156 @@ def truth_of(pa, r):
     return None
 
 
+def check_automaton(chk, rule, prog, eff, cache, CS):
+    """The transition table of the tree builder: what _cbor_builder_append does with a finished item, by the kind of the
+    frame on top of the decoding stack (read off the path's facts through the predicate algebra, not off the code's
+    spelling), compared with the table RFC 8949's grammar dictates:
+
+        empty stack                  root := item
+        definite array               push; expected-- ; when it reaches 0: pop the frame and append the array itself
+        indefinite array             push; frame untouched
+        map, even count / odd count  add key / add value; definite: expected--, at 0 pop and append the map;
+                                     indefinite: the key/value indicator flips
+        tag                          set item; pop; append the tag
+        anything else                release the item, raise syntax_error
+    Failure paths (creation_failed raised) are the subject of C05/C06."""
+    import termeval
+    chk.rule(rule, "frame automaton of _cbor_builder_append equals the reference table over the parent's kind: attach operation, "
+                   "counter update (decrement / indicator flip / none), and 'close the frame' (pop + append the container) exactly "
+                   "when the definite count reaches 0 or the parent is a tag")
+    app = prog.fn("_cbor_builder_append")
+    where = "%s:%d" % (app.file, app.line)
+    T = prog.enum("cbor_type")
+    ci = 1
+    stack_off = prog.field_offset("_cbor_decoder_context", "stack")
+    root_off = prog.field_offset("_cbor_decoder_context", "root")
+    cf_off = prog.field_offset("_cbor_decoder_context", "creation_failed")
+    se_off = prog.field_offset("_cbor_decoder_context", "syntax_error")
+    top_off = prog.field_offset("_cbor_stack", "top")
+    size_off = prog.field_offset("_cbor_stack", "size")
+    item_off = prog.field_offset("_cbor_stack_record", "item")
+    sub_off = prog.field_offset("_cbor_stack_record", "subitems")
+    ITEM = ("arg", 0)
+    seen = {}
+    n = 0
+    for k, pa in enumerate(cache.get(app.name, inline_static=True)):
+        st = pa.st
+        evs = pa.events
+        # the parent: first load of a frame's item
+        TOP = None
+        for e in evs:
+            b_ = ptr_key(e.args[0])[0] if e.kind == "load" else None
+            if e.kind == "load" and ptr_key(e.args[0])[1] == item_off and isinstance(b_, tuple) and b_[0] == "ld" and b_[2] == top_off and \
+                    isinstance(b_[1], tuple) and b_[1][0] == "ld" and b_[1][2] == stack_off:
+                TOP = e.res
+                REC = b_
+                break
+        empty = None
+        for t, truth, _ in pa.facts:
+            if t[0] == "icmp" and t[1] == "eq" and t[3] == ("c", 0) and isinstance(t[2], tuple) and t[2][0] == "ld" and t[2][2] == size_off:
+                empty = truth
+        flag_cf = any(e.kind == "store" and ptr_key(e.args[0])[1] == cf_off and e.args[1] == ("c", 1) for e in evs)
+        flag_se = any(e.kind == "store" and ptr_key(e.args[0])[1] == se_off and e.args[1] == ("c", 1) for e in evs)
+        attach = [e.callee for e in evs if e.kind == "call" and e.callee in ("cbor_array_push", "_cbor_map_add_key", "_cbor_map_add_value", "cbor_tag_set_item")]
+        root = any(e.kind == "store" and ptr_key(e.args[0])[1] == root_off and e.args[1] == ITEM for e in evs)
+        pops = [e for e in evs if e.kind == "call" and e.callee == "_cbor_stack_pop"]
+        rec_calls = [e for e in evs if e.kind == "call" and e.callee == app.name]
+        closes = bool(pops) and len(rec_calls) == 1 and TOP is not None and rec_calls[0].args[0] == TOP
+        counter = "none"
+        zero = None
+        parity = None
+        if TOP is not None:
+            for e in evs:
+                if e.kind == "store" and ptr_key(e.args[0]) == (REC, sub_off):
+                    v = e.args[1]
+                    old = [x for x in P.subterms(v) if isinstance(x, tuple) and x[0] == "ld" and x[1] == REC and x[2] == sub_off]
+                    kind = "other"
+                    if old:
+                        try:
+                            f0 = termeval.evaluate(v, {old[0]: 0}, {})
+                            f1 = termeval.evaluate(v, {old[0]: 1}, {})
+                            f5 = termeval.evaluate(v, {old[0]: 5}, {})
+                            if (f0, f1) == (1, 0):
+                                kind = "flip"
+                            elif f1 == 0 and f5 == 4:
+                                kind = "dec"
+                        except AnalysisBroken:
+                            kind = "other"
+                        z = st.truth.get(("icmp", "eq", v, ("c", 0)))
+                        if z is not None:
+                            zero = z
+                    counter = kind
+            for t, truth, _ in pa.facts:
+                # parity test: (subitems % 2) or (subitems & 1), as a truth value or compared with 0
+                u = t
+                neg = False
+                if t[0] == "icmp" and t[1] in ("eq", "ne") and t[3] == ("c", 0):
+                    u = t[2]
+                    neg = t[1] == "eq"
+                if isinstance(u, tuple) and u[0] == "op" and ((u[1] == "urem" and u[4] == ("c", 2)) or (u[1] == "and" and ("c", 1) in (u[3], u[4]))):
+                    x_ = u[3] if u[3][0] != "c" else u[4]
+                    if isinstance(x_, tuple) and x_[0] == "ld" and x_[2] == sub_off:
+                        parity = (truth != neg)      # True: odd
+        if empty is True:
+            cls = "empty"
+            exp = dict(root=True, attach=[], counter="none", closes=False, error=None)
+        elif TOP is None:
+            continue
+        else:
+            tys_, _iw, _fw, fl = CS.summary(app, pa, TOP)
+            if len(tys_) != 1 and not (tys_ and not (tys_ & {T["CBOR_TYPE_ARRAY"], T["CBOR_TYPE_MAP"], T["CBOR_TYPE_TAG"]})):
+                if not tys_:
+                    continue
+                chk.ob(rule, "path %d: the parent's kind is decided before anything is attached" % k, False, where, fn=app.name, key="undecided:%d" % k,
+                       detail="parent may be any of %s" % sorted(tys_))
+                continue
+            t0 = sorted(tys_)[0]
+            if flag_cf:
+                continue      # a refused insertion: C05 / C06
+            if t0 == T["CBOR_TYPE_ARRAY"]:
+                if fl == {0}:
+                    cls = "definite array"
+                    exp = dict(root=False, attach=["cbor_array_push"], counter="dec", closes=(zero is True), error=None)
+                elif fl == {1}:
+                    cls = "indefinite array"
+                    exp = dict(root=False, attach=["cbor_array_push"], counter="none", closes=False, error=None)
+                else:
+                    cls, exp = "array (flavour undecided)", None
+            elif t0 == T["CBOR_TYPE_MAP"]:
+                op = None if parity is None else ("_cbor_map_add_value" if parity else "_cbor_map_add_key")
+                if fl == {0}:
+                    cls = "definite map, %s count" % ("odd" if parity else "even")
+                    exp = dict(root=False, attach=[op], counter="dec", closes=(zero is True), error=None) if op else None
+                elif fl == {1}:
+                    cls = "indefinite map, %s count" % ("odd" if parity else "even")
+                    exp = dict(root=False, attach=[op], counter="flip", closes=False, error=None) if op else None
+                else:
+                    cls, exp = "map (flavour undecided)", None
+            elif t0 == T["CBOR_TYPE_TAG"]:
+                cls = "tag"
+                exp = dict(root=False, attach=["cbor_tag_set_item"], counter="none", closes=True, error=None)
+            else:
+                cls = "no legal parent"
+                exp = dict(root=False, attach=[], counter="none", closes=False, error="syntax")
+        got = dict(root=root, attach=attach, counter=counter, closes=closes, error="syntax" if flag_se else None)
+        if exp is not None and exp["counter"] == "dec" and zero is None:
+            exp = None
+            why = "the decremented count is not tested for 0"
+        else:
+            why = "kind / parity / flavour of the parent is not decided on this path"
+        n += 1
+        ok = exp is not None and got == exp
+        seen.setdefault(cls, []).append(ok)
+        chk.ob(rule, "path %d, parent %s%s" % (k, cls, "" if zero is None else (", count reaches 0" if zero else ", count stays positive")), ok, where,
+               fn=app.name, key="auto:%s:%s:%d" % (cls, zero, k),
+               detail="" if ok else (why if exp is None else "does %s, the table says %s" % (got, exp)), path=pa.block_lines() if not ok else None)
+    want = {"empty", "definite array", "indefinite array", "definite map, even count", "definite map, odd count", "indefinite map, even count",
+            "indefinite map, odd count", "tag", "no legal parent"}
+    chk.ob(rule, "every row of the table is exercised by some path", want <= set(seen), where, fn=app.name, key="auto:rows",
+           detail="" if want <= set(seen) else "no path for %s" % sorted(want - set(seen)))
+    chk.floor(rule, "paths of _cbor_builder_append classified", n, 10)
+
+
 def run(ctx, chk):
     prog = ctx.prog()
     eff = ctx.effects(prog)
@@ -201,7 +351,7 @@ def run(ctx, chk):
         fn = wired.get(field)
         f = prog.fn(fn)
         where = "%s:%d" % (f.file, f.line)
-        for k, pa in enumerate(cache.get(fn)):
+        for k, pa in enumerate(cache.get(fn, inline_static=True)):
             cs = [e for e in pa.events if e.kind == "call" and e.ckind == "lib" and e.callee.startswith("cbor_new_")]
             if not cs or not pa.st.known_nonnull(cs[0].res):
                 continue
@@ -264,6 +414,8 @@ def run(ctx, chk):
             chk.ob("C02.attach", "_cbor_builder_append path %d: parent type %d uses %s" % (k, t0, sorted(set(ins))), ok, "%s:%d" % (app.file, app.line),
                    fn=app.name, key="arm:%d:%d" % (t0, k))
     chk.floor("C02.default-arm", "default-arm paths", ndef, 1)
+    # 4b. the frame automaton of _cbor_builder_append, as a table over the parent's kind
+    check_automaton(chk, "C02.automaton", prog, eff, cache, CS)
     # 5. break
     bf = prog.fn(wired["indef_break"])
     bwhere = "%s:%d" % (bf.file, bf.line)
